@@ -6,8 +6,11 @@
    add_done_callback on a finished task schedules at once; Task.cancel() on a task suspended on
    a pending future cancels that future, otherwise sets the must-cancel flag; the Semaphore
    hands the permit over at wake-up and takes it back if the woken waiter turns out cancelled.
-   No proofs here. *)
-From AV Require Import Base.
+   Two facts are not hand-written but probed on the running class (gen/Gen_curio.v): whether
+   join's finally clause cancels again members added while it was cancelling
+   (join_recancels_late_members) and whether a joined group refuses new tasks
+   (add_refused_after_join).  No proofs here. *)
+From AV Require Import Base Gen_curio.
 
 Inductive outcome := RetNone | RetVal | Exc | Canc.
 Inductive mstatus := Run | RunC | Fin (o : outcome).        (* RunC: running, cancel requested *)
@@ -118,7 +121,7 @@ Definition on_done (g : tg) (t : N) : tg :=
 
 (* _add_task(task)  (curio.py:142-158); the task may already be finished.  false = RuntimeError *)
 Definition add_task (g : tg) (t : N) (daemon : bool) (st : mstatus) : tg * bool :=
-  if joined g then (g, false)
+  if add_refused_after_join && joined g then (g, false)
   else match get t (members g) with
        | Some _ => (g, false)                        (* already part of a group *)
        | None =>
@@ -197,43 +200,39 @@ Definition j_finally (g : tg) (order : list N) (exc : bool) : tg :=
          upd_joiner g1 JCancelAll true false None (must_cancel g1) exc ord (joined g1) (completed g1) (consumed g1)
   end.
 
-(* the loop of join() after a successful next_done(): fuel = number of members (each iteration
-   consumes one finished member) *)
-Fixpoint j_loop (fuel : nat) (g : tg) (order : list N) : tg :=
-  match fuel with
-  | O => g
-  | S f =>
-      (* next_done(): if self._done or self._pending: await self._semaphore.acquire() *)
-      let need := negb (match doneq g, pending g with [], [] => true | _, _ => false end) in
-      if need && (semv g =? 0)%nat
-      then upd_joiner g JNextDone true false None (must_cancel g) false (unfinished g) (joined g)
-                      (completed g) (consumed g)
-      else
-        let g1 := if need then upd_group g (pending g) (daemons g) (doneq g) (semv g - 1) else g in
-        match doneq g1 with
-        | [] => j_finally g1 order false                      (* next_done returned None *)
-        | t :: rest =>
-            let g2 := upd_group g1 (pending g1) (daemons g1) rest (semv g1) in
-            let cm := match completed g2 with
-                      | Some c => Some c
-                      | None => if (match pol g2 with PObject => true | _ => false end) && ret_none g2 t
-                                then None else Some t
-                      end in
-            let g3 := upd_joiner g2 (pc g2) true (granted g2) (wake g2) (must_cancel g2) false (unfinished g2)
-                                 (joined g2) cm (consumed g2 ++ [t]) in
-            let stop := bad g3 t || (match pol g3 with PAny => true | _ => false end)
-                        || ((match pol g3 with PObject => true | _ => false end)
-                            && match cm with Some _ => true | None => false end) in
-            if stop then j_finally g3 order false else j_loop f g3 order
-        end
-  end.
+(* the loop of join(): structural recursion on the queue of finished members [dq] = doneq g
+   (each iteration of `while True` pops one) *)
+Fixpoint j_loop (dq : list N) (g : tg) (order : list N) : tg :=
+  (* next_done(): if self._done or self._pending: await self._semaphore.acquire() *)
+  let need := negb (match dq, pending g with [], [] => true | _, _ => false end) in
+  if need && (semv g =? 0)%nat
+  then upd_joiner g JNextDone true false None (must_cancel g) false (unfinished g) (joined g)
+                  (completed g) (consumed g)
+  else
+    let g1 := if need then upd_group g (pending g) (daemons g) (doneq g) (semv g - 1) else g in
+    match dq with
+    | [] => j_finally g1 order false                      (* next_done returned None *)
+    | t :: rest =>
+        let g2 := upd_group g1 (pending g1) (daemons g1) rest (semv g1) in
+        let cm := match completed g2 with
+                  | Some c => Some c
+                  | None => if (match pol g2 with PObject => true | _ => false end) && ret_none g2 t
+                            then None else Some t
+                  end in
+        let g3 := upd_joiner g2 (pc g2) true (granted g2) (wake g2) (must_cancel g2) false (unfinished g2)
+                             (joined g2) cm (consumed g2 ++ [t]) in
+        let stop := bad g3 t || (match pol g3 with PAny => true | _ => false end)
+                    || ((match pol g3 with PObject => true | _ => false end)
+                        && match cm with Some _ => true | None => false end) in
+        if stop then j_finally g3 order false else j_loop rest g3 order
+    end.
 
 Definition join_entry (g : tg) (order : list N) : tg :=
   let g0 := upd_joiner g (pc g) true (granted g) (wake g) (must_cancel g) false (unfinished g) (joined g)
                        (completed g) (consumed g) in
   match pol g0 with
   | PNone => j_finally g0 order false
-  | _ => j_loop (S (length (members g0))) g0 order
+  | _ => j_loop (doneq g0) g0 order
   end.
 
 (* one step of the joining task (its handle reached the head of the ready queue) *)
@@ -269,8 +268,7 @@ Definition joiner_step (g : tg) (order : list N) : tg :=
         let g1 := upd_joiner g (pc g) true false None false false (unfinished g) (joined g) (completed g) (consumed g) in
         match doneq g1 with
         | [] => j_finally g1 order false
-        | _ => j_loop (S (length (members g1)))
-                      (upd_group g1 (pending g1) (daemons g1) (doneq g1) (S (semv g1))) order
+        | _ => j_loop (doneq g1) (upd_group g1 (pending g1) (daemons g1) (doneq g1) (S (semv g1))) order
         end
   | JCancelAll =>
       if cancelled
@@ -278,7 +276,8 @@ Definition joiner_step (g : tg) (order : list N) : tg :=
            upd_joiner g (JEnded true true false) true false None false true (unfinished g) (joined g) (completed g) (consumed g)
       else
         (* tasks = {task for task in pending | daemons if not task.done()}; while tasks: ... *)
-        let rest := filter (fun t => negb (finished g t)) (pending g ++ daemons g) in
+        let rest := if join_recancels_late_members
+                    then filter (fun t => negb (finished g t)) (pending g ++ daemons g) else [] in
         let ord := filter (fun t => memN t rest) order ++ filter (fun t => negb (memN t order)) rest in
         match ord with
         | [] => end_join g
